@@ -631,10 +631,6 @@ func (q *TransferQueue) enqueueAndCollectRetriesFor(batch batch) (batch, error) 
 		}
 	}
 
-	if len(bRes.Objects) == 0 {
-		return next, nil
-	}
-
 	// We check first that all of the objects we want to upload are present,
 	// and abort if any are missing. We'll never have any objects marked as
 	// missing except possibly on upload, so just skip iterating over the
@@ -656,7 +652,20 @@ func (q *TransferQueue) enqueueAndCollectRetriesFor(batch batch) (batch, error) 
 
 	toTransfer := make([]*Transfer, 0, len(bRes.Objects))
 
+	// Only objects that were part of this request, and each of them only
+	// once, take part in the accounting below.
+	requested := make(map[string]bool, len(batch))
+	for _, t := range batch {
+		requested[t.Oid] = true
+	}
+
 	for _, o := range bRes.Objects {
+		if !requested[o.Oid] {
+			q.errorc <- errors.New(tr.Tr.Get("[%v] The server returned an unknown OID.", o.Oid))
+			continue
+		}
+		delete(requested, o.Oid)
+
 		if o.Error != nil {
 			tools.VerifTrace("tq.reply", o.Oid, "error")
 			q.errorc <- errors.Wrapf(o.Error, "[%v] %v", o.Oid, o.Error.Message)
@@ -703,6 +712,15 @@ func (q *TransferQueue) enqueueAndCollectRetriesFor(batch batch) (batch, error) 
 				q.meter.StartTransfer(objects.First().Name)
 				toTransfer = append(toTransfer, tr)
 			}
+		}
+	}
+
+	// Objects the server did not mention at all can never complete.
+	for _, t := range batch {
+		if requested[t.Oid] {
+			q.errorc <- errors.New(tr.Tr.Get("[%v] The server did not return this object.", t.Oid))
+			q.Skip(t.Size)
+			q.wait.Done()
 		}
 	}
 
